@@ -382,7 +382,7 @@ Qed.
 Lemma ok_so_expire o : keeps I (so_expire cfg sd o).
 Proof.
   unfold so_expire. kstep; [kstep|]. kstep; [kstep|].
-  destruct (del_attrs (i_vals a)) as [v ok]. repeat kstep; try apply ok_cache_expire; apply ok_upd; intros i; reflexivity.
+  repeat kstep; try apply ok_cache_expire; apply ok_upd; intros i; reflexivity.
 Qed.
 Lemma ok_so_destroy o : keeps I (so_destroy sd o).
 Proof.
